@@ -268,4 +268,222 @@ theorem SimF.cond_exit {p b rest pre post : List Instr} {m m₁ : Nat → Nat} {
   | brk l rs' => exact h₂
   | cont l rs' => exact h₂
 
+/-! ## `compile` on Ff: total, generator state untouched, code never empty -/
+
+theorem ff_call_ne {self h : String} {c : Ctx} (hc : c.funcname = self ∨ c.funcname = "")
+    (h1 : (h != self) = true) (h2 : (h != "") = true) : (h == c.funcname) = false := by
+  rcases hc with hc | hc <;> rw [hc]
+  · simpa using h1
+  · simpa using h2
+
+mutual
+theorem compile_total_Ff : ∀ (self : String) (e : Expr), Ff self e = true → ∀ isFn c gs,
+    (c.funcname = self ∨ c.funcname = "") →
+    ∃ code t, (compile isFn c e).run gs = .ok ((code, t), gs) ∧ code ≠ []
+  | _, .int v, _, isFn, c, gs, hfn => ⟨_, _, by rw [compile]; rfl, by simp⟩
+  | _, .bool v, _, isFn, c, gs, hfn => ⟨_, _, by rw [compile]; rfl, by simp⟩
+  | _, .str v, _, isFn, c, gs, hfn => ⟨_, _, by rw [compile]; rfl, by simp⟩
+  | _, .nilLit, _, isFn, c, gs, hfn => ⟨_, _, by rw [compile]; rfl, by simp⟩
+  | _, .sym x, _, isFn, c, gs, hfn => ⟨_, _, by rw [compile]; rfl, by simp⟩
+  | self, .begin_ es, he, isFn, c, gs, hfn => by
+    rw [Ff] at he
+    cases es with
+    | nil => exact ⟨[.push .nil], c.tail, by rw [compile]; rfl, by simp⟩
+    | cons e0 es0 =>
+      rw [compile]
+      · exact compileBegin_total_Ff self (e0 :: es0) (by simp) he isFn c gs hfn
+      · intro hh; cases hh
+  | self, .def_ x e, he, isFn, c, gs, hfn => by
+    rw [Ff] at he
+    simp only [Bool.and_eq_true] at he
+    obtain ⟨ce, t, h1, _⟩ := compile_total_Ff self e he.2 isFn { c with tail := false } gs hfn
+    refine ⟨ce ++ [.dup, .popStackPutEnv x], false, ?_, by simp⟩
+    rw [compile]
+    simp only [g_bind_ok, g_pure_ok]
+    exact ⟨_, _, h1, rfl⟩
+  | self, .set_ x e, he, isFn, c, gs, hfn => by
+    rw [Ff] at he
+    simp only [Bool.and_eq_true] at he
+    obtain ⟨ce, t, h1, _⟩ := compile_total_Ff self e he.2 isFn { c with tail := false } gs hfn
+    refine ⟨ce ++ [.dup, .update x], false, ?_, by simp⟩
+    rw [compile]
+    simp only [g_bind_ok, g_pure_ok]
+    exact ⟨_, _, h1, rfl⟩
+  | self, .cond arms d, he, isFn, c, gs, hfn => by
+    rw [Ff] at he
+    simp only [Bool.and_eq_true] at he
+    obtain ⟨dc, t, hd, hdne⟩ := compile_total_Ff self d he.2 isFn c gs hfn
+    obtain ⟨as, has⟩ := compileArms_total_Ff self arms he.1 isFn c gs hfn
+    refine ⟨asmCond as dc, c.tail, ?_, asmCond_ne_nil as dc hdne⟩
+    rw [compile]
+    simp only [g_bind_ok, g_pure_ok]
+    exact ⟨_, _, hd, _, _, has, rfl⟩
+  | self, .call f args, he, isFn, c, gs, hfn => by
+    cases f with
+    | sym h =>
+      rw [Ff] at he
+      simp only [Bool.and_eq_true] at he
+      refine ⟨[.callExpr (.sym h) args], c.tail, ?_, by simp⟩
+      rw [compile]
+      have hne := ff_call_ne hfn he.1.1.1 he.1.1.2
+      simp only [hne, Bool.and_false, Bool.false_eq_true, if_false]
+      rfl
+    | _ => simp [Ff] at he
+  | _, .and_ _, he, _, _, _, _ | _, .or_ _, he, _, _, _, _ | _, .let_ _ _ _, he, _, _, _, _
+  | _, .newScope _, he, _, _, _, _ | _, .arr _, he, _, _, _, _ | _, .for_ _ _ _ _ _, he, _, _, _, _
+  | _, .break_ _, he, _, _, _, _ | _, .continue_ _, he, _, _, _, _
+  | _, .fn _ _ _, he, _, _, _, _ | _, .defn _ _ _ _, he, _, _, _, _ | _, .assign _ _, he, _, _, _, _
+  | _, .bad _, he, _, _, _, _ => by
+    simp [Ff] at he
+theorem compileBegin_total_Ff : ∀ (self : String) (es : List Expr), es ≠ [] → FfList self es = true → ∀ isFn c gs,
+    (c.funcname = self ∨ c.funcname = "") →
+    ∃ code t, (compileBegin isFn c es).run gs = .ok ((code, t), gs) ∧ code ≠ []
+  | _, [], hne, _, _, _, _, _ => absurd rfl hne
+  | self, [e], _, he, isFn, c, gs, hfn => by
+    rw [FfList] at he
+    simp only [Bool.and_eq_true] at he
+    rw [compileBegin]
+    exact compile_total_Ff self e he.1 isFn c gs hfn
+  | self, e :: e' :: es, _, he, isFn, c, gs, hfn => by
+    rw [FfList] at he
+    simp only [Bool.and_eq_true] at he
+    obtain ⟨a, ta, ha, hane⟩ := compile_total_Ff self e he.1 isFn { c with tail := false } gs hfn
+    obtain ⟨b, tb, hb, _⟩ := compileBegin_total_Ff self (e' :: es) (by simp) he.2 isFn c gs hfn
+    refine ⟨a ++ (if a.isEmpty then [] else [.pop]) ++ b, tb, ?_, by simp [hane]⟩
+    rw [compileBegin]
+    · simp only [g_bind_ok, g_pure_ok]
+      exact ⟨_, _, ha, _, _, hb, rfl⟩
+    · intro hh; cases hh
+theorem compileArms_total_Ff : ∀ (self : String) (arms : List (Expr × Expr)), FfArms self arms = true → ∀ isFn c gs,
+    (c.funcname = self ∨ c.funcname = "") →
+    ∃ as, (compileArms isFn c arms).run gs = .ok (as, gs)
+  | _, [], _, isFn, c, gs, hfn => ⟨[], by rw [compileArms]; rfl⟩
+  | self, (p, b) :: arms, he, isFn, c, gs, hfn => by
+    rw [FfArms] at he
+    simp only [Bool.and_eq_true] at he
+    obtain ⟨r, hr⟩ := compileArms_total_Ff self arms he.2 isFn c gs hfn
+    obtain ⟨pc, _, hp, _⟩ := compile_total_Ff self p he.1.1 isFn { c with tail := false } gs hfn
+    obtain ⟨bc, _, hb, _⟩ := compile_total_Ff self b he.1.2 isFn c gs hfn
+    refine ⟨(pc, bc) :: r, ?_⟩
+    rw [compileArms]
+    simp only [g_bind_ok, g_pure_ok]
+    exact ⟨_, _, hr, _, _, hp, _, _, hb, rfl⟩
+end
+
+/-! ## The claims -/
+
+def FClaimE (n : Nat) : Prop :=
+  ∀ self e, Ff self e = true → ∀ isFn c gs r, (compile isFn c e).run gs = .ok r → (c.funcname = self ∨ c.funcname = "") →
+    ∀ m s rs env pre post, RelF m s rs env → Seg s pre r.1.1 post → SimF r.1.1 m s rs env (Ref.eval n e env rs)
+
+def FClaimB (n : Nat) : Prop :=
+  ∀ self es, es ≠ [] → FfList self es = true → ∀ isFn c gs r, (compileBegin isFn c es).run gs = .ok r →
+    (c.funcname = self ∨ c.funcname = "") →
+    ∀ m s rs env pre post, RelF m s rs env → Seg s pre r.1.1 post → SimF r.1.1 m s rs env (Ref.evalBegin n es env rs)
+
+def FClaimC (n : Nat) : Prop :=
+  ∀ self arms d, FfArms self arms = true → Ff self d = true → ∀ isFn c gs r gs0 rd,
+    (compileArms isFn c arms).run gs = .ok r → (compile isFn c d).run gs0 = .ok rd →
+    (c.funcname = self ∨ c.funcname = "") →
+    ∀ m s rs env pre post, RelF m s rs env → Seg s pre (asmCond r.1 rd.1.1) post →
+      SimF (asmCond r.1 rd.1.1) m s rs env (Ref.evalCond n arms d env rs)
+
+/-- `EvalCallExpression` against `Ref.eval`: the value, control state as before, related states -/
+def EvalOkF (e : Expr) (m : Nat → Nat) (s : St) (rs : Ref.St) (env : Nat) (res : Ref.R Val) : Prop :=
+  match res with
+  | .ok v' rs' => ∃ M s' m' v, (∀ fuel, M ≤ fuel → (evalCallExpr fuel e).run s = (.ok v, s'))
+      ∧ s'.data = s.data ∧ s'.pc = s.pc ∧ v' = trf m' v ∧ RelF m' s' rs' env ∧ MExt s m m' ∧ RExt rs rs'
+      ∧ FrameF s s' ∧ VOk m' s' rs' v
+  | .err rs' => ∃ M, ∀ fuel, M ≤ fuel → ∃ se, (evalCallExpr fuel e).run s = (.error .err, se) ∧ se.trace = rs'.trace
+  | .timeout => True
+  | .brk _ _ => False
+  | .cont _ _ => False
+
+theorem evalCallExpr_sym_simF (x : String) (hx : okSym x = true) (n : Nat) {m : Nat → Nat} {s : St} {rs : Ref.St}
+    {env : Nat} (hrel : RelF m s rs env) : EvalOkF (.sym x) m s rs env (Ref.eval n (.sym x) env rs) := by
+  cases n with
+  | zero => rw [Ref.eval]; trivial
+  | succ n =>
+    rw [Ref.eval]
+    have hl := hrel.lexLookup x
+    have hrun : ∀ fuel, (evalCallExpr (fuel + 1) (.sym x)).run s = match lexLookup s x with
+        | some (_, v) => (.ok v, s) | none => (.error .err, s) := by
+      intro fuel
+      rw [evalCallExpr]
+      simp only [run_bind, run_get]
+      cases lexLookup s x with
+      | none => simp only [run_err]
+      | some r => obtain ⟨i, v⟩ := r; simp only [run_pure]
+    cases hv : lexLookup s x with
+    | none =>
+      rw [hv] at hl
+      rw [← hl]
+      refine ⟨1, fun fuel hf => ?_⟩
+      obtain ⟨f, rfl⟩ : ∃ f, fuel = f + 1 := ⟨fuel - 1, by omega⟩
+      exact ⟨s, by rw [hrun, hv], hrel.trace⟩
+    | some r =>
+      obtain ⟨i, v⟩ := r
+      rw [hv] at hl
+      rw [← hl]
+      refine ⟨1, s, m, v, fun fuel hf => ?_, rfl, rfl, rfl, hrel, MExt.refl s m, RExt.refl rs, FrameF.refl s,
+        hrel.vok i x v hx (lexLookup_sound hv)⟩
+      obtain ⟨f, rfl⟩ : ∃ f, fuel = f + 1 := ⟨fuel - 1, by omega⟩
+      rw [hrun, hv]
+
+/-- an operand that is not a symbol, given the segment lemma for it at the same reference fuel -/
+theorem evalCallExpr_nonsym_simF {n : Nat} (hE : FClaimE n) (e : Expr) (he : Ff "" e = true) (hns : ∀ x, e ≠ .sym x)
+    {m : Nat → Nat} {s : St} {rs : Ref.St} {env : Nat} (hrel : RelF m s rs env) :
+    EvalOkF e m s rs env (Ref.eval n e env rs) := by
+  obtain ⟨code, t, hc, hne⟩ := compile_total_Ff "" e he (isFnScope s) {}
+    { fns := s.fns, loops := s.loops, loopstack := s.loopstack, live := s.linear } (Or.inl rfl)
+  have hgen : (runGen (compile (isFnScope s) {} e)).run s = (.ok (code, t), s) :=
+    run_runGen_any _ s _ _ hc rfl
+  have hseg := seg_inHelper s code
+  have hsim := hE "" e he (isFnScope s) {} _ ((code, t), _) hc (Or.inl rfl) m (inHelper s code) rs env [] [.ret]
+    (relF_inHelper hrel code) hseg
+  have hunf := fun fuel => evalCallExpr_nonsym fuel e hns s s code t hgen hne
+  cases hres : Ref.eval n e env rs with
+  | ok v' rs' =>
+    rw [hres] at hsim
+    obtain ⟨s4, m4, v, r, l, hv, rel4, hm4, ext4, fr4, hcl4⟩ := hsim
+    have ha4 : s4.addr = some (s.curfunc, -1) :: s.addr := fr4.addr
+    obtain ⟨M, hM⟩ := run_helper_ok hseg r l ha4
+    have hbal := run_restore_balanced (capOf s)
+      { s4 with addr := s.addr, curfunc := s.curfunc, pc := -1, data := (inHelper s code).data }
+      (by show s4.suspended.length = s.suspended.length; rw [fr4.susp]; rfl) rfl
+      (by show s4.linear.length = s.linear.length; rw [fr4.linear]; rfl) rfl
+    have hfl : s.fns.length ≤ s4.fns.length :=
+      Nat.le_trans (by show s.fns.length ≤ (s.fns ++ [_]).length; simp) fr4.fnsLen
+    have hfo : ∀ id, id < s.fns.length → fnOf s4 id = fnOf s id := fun id hid =>
+      (fr4.fns id (by show id < (s.fns ++ [_]).length; simp; omega)).trans (fnOf_inHelper_old s code id hid)
+    have hframe : FrameF s { s4 with addr := s.addr, curfunc := s.curfunc, pc := s.pc, data := s.data } :=
+      ⟨⟨fr4.linear, rfl, rfl, fr4.susp, hfl, hfo, fr4.loopsLen, fr4.loops⟩, fr4.scLen, fr4.flags⟩
+    refine ⟨M + 2, { s4 with addr := s.addr, curfunc := s.curfunc, pc := s.pc, data := s.data }, m4, v,
+      fun fuel hf => ?_, rfl, rfl, hv, ?_, fun id hid => hm4 id (by show id < (s.fns ++ [_]).length; simp; omega),
+      ext4, hframe, ?_⟩
+    · obtain ⟨f, rfl⟩ : ∃ f, fuel = f + 2 := ⟨fuel - 2, by omega⟩
+      rw [hunf f, hM f (by omega)]
+      simp only [hbal]
+      rfl
+    · exact hrel.back rel4 rfl rfl rfl rfl fr4.linear rfl fr4.flags hfl hfo ext4.1
+    · exact ValIn.mono hcl4 (fun id hg => hg.mono (Nat.le_refl _) (fun _ _ => rfl) (ClosExt.refl _) rfl)
+  | err rs' =>
+    rw [hres] at hsim
+    obtain ⟨M, hM⟩ := run_of_failsE hsim
+    refine ⟨M + 2, fun fuel hf => ?_⟩
+    obtain ⟨f, rfl⟩ : ∃ f, fuel = f + 2 := ⟨fuel - 2, by omega⟩
+    obtain ⟨sf, hrun, htr⟩ := hM f (by omega)
+    refine ⟨_, by rw [hunf f, hrun], ?_⟩
+    rw [restore_trace]; exact htr
+  | timeout => trivial
+  | brk l rs' => rw [hres] at hsim; exact hsim
+  | cont l rs' => rw [hres] at hsim; exact hsim
+
+theorem evalCallExpr_simF {n : Nat} (hE : FClaimE n) (e : Expr) (he : Ff "" e = true)
+    {m : Nat → Nat} {s : St} {rs : Ref.St} {env : Nat} (hrel : RelF m s rs env) :
+    EvalOkF e m s rs env (Ref.eval n e env rs) := by
+  cases e with
+  | sym x => exact evalCallExpr_sym_simF x (by simpa [Ff] using he) n hrel
+  | _ => exact evalCallExpr_nonsym_simF hE _ he (fun x hx => by cases hx) hrel
+
 end ZygoVerif.Sim
